@@ -396,6 +396,9 @@ def run(ctx):
     if not traces:
         raise MachineryError("no compute_m_trunc call was recorded")
     traces = traces[:20000]
+    # binding demonstration: a copy of a recorded call with the kept count changed must be rejected
+    bad = dict(traces[0], id="corrupted-copy", got=traces[0]["got"] + 1)
+    traces = traces + [bad]
     with tempfile.NamedTemporaryFile("w", suffix=".json", delete=False) as fh:
         json.dump(traces, fh)
         path = fh.name
@@ -408,7 +411,13 @@ def run(ctx):
     if len(rt["verdicts"]) != len(traces):
         raise MachineryError("TruncationTrace verdict count mismatch")
     byid = {t["id"]: t for t in traces}
+    cv = [v for v in rt["verdicts"] if v["id"] == "corrupted-copy"]
+    if len(cv) != 1 or cv[0]["expected"] == cv[0]["got"]:
+        raise MachineryError("binding demonstration failed: TruncationTrace accepted a recorded call with a changed kept count")
+    ctx.notes["binding_demonstration"] = "corrupted copy (kept count + 1) rejected by TruncationTrace"
     for v in rt["verdicts"]:
+        if v["id"] == "corrupted-copy":
+            continue
         ctx.traces(1)
         if v["expected"] != v["got"]:
             t = byid[v["id"]]
